@@ -85,6 +85,8 @@ type world struct {
 	dsStores storage.OpenFGADatastore
 	sStores  *server.Server
 	storeIDs []string // creation order
+	// a store that was created and deleted (id filter index -2)
+	deletedStoreID string
 	names    []string
 	// data store(s)
 	data    [2]string     // store ids: [0] n writes, [1] n changes incl. deletes
@@ -188,6 +190,18 @@ func newWorld(backend string, n int) *world {
 		}
 		w.storeIDs = append(w.storeIDs, st.GetId())
 		w.names = append(w.names, name)
+		if i == n/2 {
+			// one more store, created in the middle and deleted again: it must never be listed (with or
+			// without an id filter naming it)
+			dst, err := w.sStores.CreateStore(ctx, &openfgav1.CreateStoreRequest{Name: name})
+			if err != nil {
+				panic(err)
+			}
+			if _, err := w.sStores.DeleteStore(ctx, &openfgav1.DeleteStoreRequest{StoreId: dst.GetId()}); err != nil {
+				panic(err)
+			}
+			w.deletedStoreID = dst.GetId()
+		}
 	}
 	for k := 0; k < 2; k++ {
 		st, err := w.s.CreateStore(ctx, &openfgav1.CreateStoreRequest{Name: "data-store"})
@@ -378,7 +392,9 @@ func (w *world) call(q Query, pageSize int, token string, typeOverride *string) 
 	case "ListStoresByIDs":
 		var ids []string
 		for _, i := range q.IDs {
-			if i < 0 {
+			if i == -2 {
+				ids = append(ids, w.deletedStoreID)
+			} else if i < 0 {
 				ids = append(ids, "01ZZZZZZZZZZZZZZZZZZZZZZZZ")
 			} else {
 				ids = append(ids, w.storeIDs[i])
@@ -927,6 +943,7 @@ func idFilterQueries(n int) []Query {
 			}
 			if len(o) <= 2 {
 				out = append(out, Query{API: "ListStoresByIDs", IDs: append([]int{-1}, o...)})
+				out = append(out, Query{API: "ListStoresByIDs", IDs: append([]int{-2}, o...)}, Query{API: "ListStoresByIDs", IDs: append(append([]int{}, o...), -2), Rotate: len(o) > 1}) // the id of a DELETED store
 				out = append(out, Query{API: "ListStoresByIDs", IDs: append(append([]int{}, o...), o[0])}) // an id listed twice
 			}
 		}
@@ -950,7 +967,7 @@ func sizes(thorough bool) []int {
 
 func Run(o *core.Options) int {
 	r := core.NewReport(o, "exploration",
-		"For every data-set size n of the bound, both backends (memory, SQLite) and EVERY page size 1..min(n+2,100) plus 'not given', continuation tokens are followed through the public Server API for Read (no key and 7 tuple-key filters, two stores: write-only and with deletes), ReadChanges (no type / doc / group / unknown type), ListStores (no name / two names / unknown name; for n in 2..5 also with an id filter at the datastore interface: every subset of the stores in every order, with an unknown and a repeated id, the order fixed or changing between page requests) and ReadAuthorizationModels until the documented end signal; the concatenation is compared with the harness's own list. Then: every issued ReadChanges token is replayed with every other type filter; crafted decoded values {'', -1, 0, 1, abc, huge, MaxInt64, n, n+1, n+7} are sent bare and inside the backend's serializer envelope; for selected n every single-character substitution and every truncation of two issued tokens per query. A case = one complete token walk. Non-trivial = a walk over more than one page (distinct by backend, query, n, page size) or an accepted/rejected forged token class.")
+		"For every data-set size n of the bound, both backends (memory, SQLite) and EVERY page size 1..min(n+2,100) plus 'not given', continuation tokens are followed through the public Server API for Read (no key and 7 tuple-key filters, two stores: write-only and with deletes), ReadChanges (no type / doc / group / unknown type), ListStores (no name / two names / unknown name; for n in 2..5 also with an id filter at the datastore interface: every subset of the stores in every order, with an unknown id, the id of a deleted store and a repeated id, the order fixed or changing between page requests) and ReadAuthorizationModels until the documented end signal; the concatenation is compared with the harness's own list. Then: every issued ReadChanges token is replayed with every other type filter; crafted decoded values {'', -1, 0, 1, abc, huge, MaxInt64, n, n+1, n+7} are sent bare and inside the backend's serializer envelope; for selected n every single-character substitution and every truncation of two issued tokens per query. A case = one complete token walk. Non-trivial = a walk over more than one page (distinct by backend, query, n, page size) or an accepted/rejected forged token class.")
 	r.Assume(
 		"bound: n in 0..12 (quick), additionally 13..40,44,48..52,60,64,70,75,80,90,98..102,110,120 (thorough); n = number of tuples = number of changelog entries = number of models = number of stores",
 		"page sizes above 100 are rejected by API validation for all four APIs, so 'every page size' = 1..min(n+2,100) and the default (50)",
